@@ -133,7 +133,7 @@ let fwd_invs c use_fwd =
       let delay = int_of_string (opt c "delay" "2") and desc = int_of_string (opt c "desc" "1") in
       (match fwd_run c.prog w (nat_of_int 0) (nat_of_int delay) (nat_of_int desc) false (fun _ -> None) (nat_of_int 400) e_top with
        | None -> None | Some e -> Some e.e_pre)
-let eval_bwd toks =
+let eval_bwd_gen tabcheck toks =
   let (c, exit_block, good, final, use_fwd, fresh) = bwd_setup toks in
   match fwd_invs c use_fwd with
   | None -> "MODEL-ERROR fwd"
@@ -147,8 +147,30 @@ let eval_bwd toks =
         | Some pc ->
           let out = String.concat " ; " (List.init c.nb (fun i ->
               "finv=" ^ show_state c.nv (finv (nat_of_int i)) ^ " pre=" ^ show_state c.nv (pc (nat_of_int i)))) in
-          if opt c "bwdcheck" "1" = "0" || bwd_inductive_ok c.prog fresh good (nat_of_int exit_block) final finv pc then out
+          if not tabcheck || opt c "bwdcheck" "1" = "0" || bwd_inductive_ok c.prog fresh good (nat_of_int exit_block) final finv pc then out
           else out ^ " MODEL-NOT-BWD-INDUCTIVE"))
+let eval_bwd toks = eval_bwd_gen true toks
+(* forward+backward analyzer (intra_forward_backward_analyzer + checker): the line of the
+   backward mode (without the table check of C11), then the verdicts in the format of harness/bwditv.cpp *)
+let eval_fb toks =
+  let base = eval_bwd_gen false toks in
+  let (c, exit_block, _, _, _, fresh) = bwd_setup toks in
+  if opt c "fb" "0" <> "1" then base else begin
+    let delay = int_of_string (opt c "delay" "2") and desc = int_of_string (opt c "desc" "1") in
+    let refined = opt c "refined" "0" = "1" and maxref = int_of_string (opt c "maxref" "5") in
+    let ex = if exit_block < 0 then None else Some (nat_of_int exit_block) in
+    match fb_analyze c.prog (nat_of_int 0) ex (nat_of_int delay) (nat_of_int desc) (nat_of_int 400) fresh
+            refined (nat_of_int maxref) e_top with
+    | None -> base ^ " ; checks=MODEL-ERROR"
+    | Some verdicts ->
+      let na = int_of_string (opt c "nasserts" "0") in
+      let letter = function VSafe -> "S" | VWarn -> "W" | VUnreach -> "U" in
+      base ^ " ; checks=" ^ String.concat "" (List.init na (fun k ->
+          let id = k + 1 in
+          match List.filter (fun (i, _) -> int_of_nat i = id) verdicts with
+          | [] -> "-"
+          | l -> String.concat "" (List.map (fun (_, v) -> letter v) l) ^ ","))
+  end
 let validate_bwd toks answer =
   let (c, exit_block, good, final, _, fresh) = bwd_setup toks in
   let parts = List.filter (fun s -> s <> "") (List.map String.trim (Str.split (Str.regexp_string " ; ") answer)) in
@@ -184,6 +206,7 @@ let () =
   let file = List.nth args (List.length args - 1) in
   let lines = read_lines file in
   let vmode = List.mem "--validate" args in
+  let fbmode = List.mem "--fb" args in
   let bmode = List.mem "--bwd" args in
   List.iteri (fun i l ->
       let r = try
@@ -191,6 +214,7 @@ let () =
             match Str.bounded_split (Str.regexp_string " ### ") l 2 with
             | [c; a] -> if bmode then validate_bwd (split_ws c) a else validate (split_ws c) a
             | _ -> "unparsable"
-          end else if bmode then eval_bwd (split_ws l) else eval (split_ws l)
+          end else if fbmode then eval_fb (split_ws l)
+          else if bmode then eval_bwd (split_ws l) else eval (split_ws l)
         with Failure m -> "MODEL-ERROR " ^ m | Not_found -> "MODEL-ERROR notfound" | Invalid_argument m -> "MODEL-ERROR " ^ m in
       print_string ("R " ^ string_of_int i ^ " " ^ r ^ "\n")) lines
